@@ -18,10 +18,10 @@ func Subtraction(left, right value.Value) error {
 		case value.IntegerType:
 			rv := value.Unwrap[*value.Integer](right)
 			// nolint: gocritic
-			if rv.IsPositiveInf || (lv.Value+rv.Value) > int64(math.MaxInt64) {
+			if rv.IsPositiveInf || (lv.Value-rv.Value) > int64(math.MaxInt64) {
 				lv.Value = math.MaxInt64
 				lv.IsPositiveInf = true
-			} else if rv.IsNegativeInf || (lv.Value+rv.Value) < int64(math.MinInt64) {
+			} else if rv.IsNegativeInf || (lv.Value-rv.Value) < int64(math.MinInt64) {
 				lv.Value = math.MinInt64
 				lv.IsNegativeInf = true
 			} else {
@@ -33,10 +33,10 @@ func Subtraction(left, right value.Value) error {
 			}
 			rv := value.Unwrap[*value.Float](right)
 			// nolint: gocritic
-			if rv.IsPositiveInf || math.IsInf(float64(lv.Value)+rv.Value, 1) {
+			if rv.IsPositiveInf || math.IsInf(float64(lv.Value)-rv.Value, 1) {
 				lv.Value = math.MaxInt64
 				lv.IsPositiveInf = true
-			} else if rv.IsNegativeInf || math.IsInf(float64(lv.Value)+rv.Value, -1) {
+			} else if rv.IsNegativeInf || math.IsInf(float64(lv.Value)-rv.Value, -1) {
 				lv.Value = math.MinInt64
 				lv.IsNegativeInf = true
 			} else {
@@ -73,10 +73,10 @@ func Subtraction(left, right value.Value) error {
 		case value.IntegerType:
 			rv := value.Unwrap[*value.Integer](right)
 			// nolint: gocritic
-			if rv.IsPositiveInf || math.IsInf(lv.Value+float64(rv.Value), 1) {
+			if rv.IsPositiveInf || math.IsInf(lv.Value-float64(rv.Value), 1) {
 				lv.Value = math.MaxFloat64
 				lv.IsPositiveInf = true
-			} else if rv.IsNegativeInf || math.IsInf(lv.Value+float64(rv.Value), -1) {
+			} else if rv.IsNegativeInf || math.IsInf(lv.Value-float64(rv.Value), -1) {
 				lv.Value = -math.MaxFloat64
 				lv.IsNegativeInf = true
 			} else {
@@ -85,10 +85,10 @@ func Subtraction(left, right value.Value) error {
 		case value.FloatType:
 			rv := value.Unwrap[*value.Float](right)
 			// nolint: gocritic
-			if rv.IsPositiveInf || math.IsInf(lv.Value+rv.Value, 1) {
+			if rv.IsPositiveInf || math.IsInf(lv.Value-rv.Value, 1) {
 				lv.Value = math.MaxFloat64
 				lv.IsPositiveInf = true
-			} else if rv.IsNegativeInf || math.IsInf(lv.Value+rv.Value, -1) {
+			} else if rv.IsNegativeInf || math.IsInf(lv.Value-rv.Value, -1) {
 				lv.Value = -math.MaxFloat64
 				lv.IsNegativeInf = true
 			} else {
